@@ -424,6 +424,9 @@ Definition s_sig_warning (sg : signal) : option str :=
 
 Definition add_plain_warning (text : str) : M unit := mod_glob (add_warning (mkWarn text None)).
 
+(* $ENTER n has no upper bound in the code; counts above this are outside the modelled fragment *)
+Definition count_limit : Z := 100000.
+
 (* run_compile of every simple command *)
 Definition run_compile (cname : str) (sc : simple_cls) (name : str) (arg : option line) : M rc :=
   match s_run sc with
@@ -432,7 +435,7 @@ Definition run_compile (cname : str) (sc : simple_cls) (name : str) (arg : optio
       match arg with
       | None => ret (RLines [name_line name None])
       | Some l => match l_content l with
-                  | AInt n => ret (RLines (repeat s_ENTER (Z.to_nat n)))
+                  | AInt n => if (n <=? count_limit)%Z then ret (RLines (repeat s_ENTER (Z.to_nat n))) else unmod
                   | AStr _ => crash KTypeError
                   end
       end
@@ -440,7 +443,7 @@ Definition run_compile (cname : str) (sc : simple_cls) (name : str) (arg : optio
       match arg with
       | None => ret (RLines [[]])
       | Some l => match l_content l with
-                  | AInt n => ret (RLines (repeat [] (Z.to_nat n)))
+                  | AInt n => if (n <=? count_limit)%Z then ret (RLines (repeat [] (Z.to_nat n))) else unmod
                   | AStr _ => crash KTypeError
                   end
       end
@@ -729,7 +732,11 @@ Definition block_compile (bc : block_cls) (cname : str) (cmd : str) (num : Z)
               | Some _ => raise EInvalidArguments
               | None => ret (RComp (mkCret [mkO ByLegacyRepeat (s_REPEAT ++ [space] ++ a)] SNormal))
               end
-          | _ => dom cr <- repeat_loop loop_fuel var_name count_expr code 0%Z (mkCret [] SNormal); ret (RComp cr)
+          | _ =>
+              (* the counter name is verified before the loop (fix commit): also for zero iterations *)
+              if match var_name with Some v => is_var v false | None => true end then
+                dom cr <- repeat_loop loop_fuel var_name count_expr code 0%Z (mkCret [] SNormal); ret (RComp cr)
+              else raise EUnacceptableVarName
           end
       end
   | BKWhile =>
@@ -825,6 +832,7 @@ Fixpoint exec_cmds (cmds : list item) (acc : list oline) : M cret :=
   | [] => ret (mkCret acc SNormal)
   | Blk _ :: rest => exec_cmds rest acc
   | Ln c n :: rest =>
+      if is_blank c then exec_cmds rest acc else    (* list-form blank line (fix commit) *)
       let code_block := match rest with Blk b :: _ => Some b | _ => None end in
       dom _ <- set_line2 None;
       dom cr <- exec_line c n code_block;
